@@ -41,7 +41,7 @@ EXPECTED_PROBES = ["iter_resumed_after_deeper_build", "iter_resumed_after_clear_
 
 def plan(tier):
     if tier == "quick":
-        return {"runs": 30000, "chunk": 50, "wall_cap": 150}
+        return {"runs": 24000, "chunk": 50, "wall_cap": 150}
     return {"runs": 400000, "chunk": 400, "wall_cap": 3000}
 
 
@@ -104,7 +104,7 @@ def gen_case(rng, tier):
     for i in range(ncls):
         classes.append(_gen_class(rng, lim, classes[0]["basis"] if i and rng.random() < 0.5 else None))
     refs = [common.to_ref(c["basis"]) for c in classes]
-    nops = rng.randint(5, 30)
+    nops = rng.randint(5, 30) if rng.random() >= 0.03 else rng.randint(80, 200)  # swarm: a few long histories
     ops = []
     live = []
     next_iid = 0
